@@ -53,6 +53,14 @@ CHECKS = {
          "Every path text over a structural segment alphabet up to 6 (quick) / 8 (thorough) segments, both families, with every path query and every interleaving of front/back iteration two steps past exhaustion, compared with a list model derived from the text. Exhaustive inside the bound; the scanners branch only on '/', so the bound covers every code path several times over.",
          "Trusted: the '/'-split list model (20 lines), the reference path DFA from /verif/spec deciding domain membership, rustc. Not covered: paths with more segments than the bound (except that iteration code has no length-dependent branch).",
          "DESIGN.md section 6, C12"),
+ "C15": ("exhaustive sweep over all ordered pairs (a, b) of a structured URI/IRI domain: relative_to, then the library's own resolution, compared with a by the reference equivalence",
+         "All ordered pairs over scheme {s,t} x authority {none, empty, h, g} x PATH(2) (quick, 1.2 M pairs) / PATH(3) with dot, colon and multi-byte segments (thorough, ~50 M pairs) x query x fragment, both families: no panic, result is a valid reference, inputs unchanged, both entry points agree, and result.resolved(b) is equal to a (library == where the strict model says equal; reference equivalence up to the [\"\"]/[] identification, to collapsing of leading empty segments without authority, and to a's own RFC normal form).",
+         "Trusted: the resolution and equivalence models shared with C06/C07. The leniencies are exactly the corners where RFC dot-segment removal cannot reproduce a (a kept trailing '..', a lone empty segment, a leading empty segment without authority).",
+         "DESIGN.md section 6, C15"),
+ "C16": ("exhaustive sweep over all ordered (value, prefix) pairs of path and reference domains, and over all short references for base(), against the normalised-segment prefix model",
+         "Path::suffix on all ordered pairs PATH(3) x PATH(2) (quick) / PATH(4) x PATH(3) (thorough) over {'' . .. a b a:b %61 %FF}: Some exactly when same absoluteness and the prefix's normalised decoded segments lead the value's; the returned path renders the remaining segments; pushing them onto the prefix gives a path == the original. Ri/RiRef::suffix on all ordered pairs of ~700 references (equal/different scheme and authority incl. %-spellings): gate, own query/fragment, agreement of entry points. base() on every valid reference of RAW(6)/RAW(7) (1.1 M texts) and of the reference domain: text up to and including the last '/' of the path, valid, no query/fragment.",
+         "Trusted: the decomposition, path-list and equivalence models.",
+         "DESIGN.md section 6, C16"),
  "C19": ("exhaustive sweep over all short %XX token sequences (every class of the UTF-8 decoding automaton) in every percent-decodable component, against an octet-level decoding model",
          "All sequences of up to 3 (quick) / 4 (thorough) tokens over 21-22 tokens covering ASCII, literal non-ASCII, continuation bytes low/high, overlong leads C0/C1/E0, 2/3/4-byte leads, surrogate lead ED A0, beyond-range F4 90 / F5, FF, %2F, %25, for Segment, Host, UserInfo, Query, Fragment of both families, stand-alone and obtained from a parsed URI/IRI (209 k values quick): bytes() equals the model's octets, and chars/len/decode/== str/Deref/into_pct_string terminate and yield the UTF-8 text of well-formed octets and never equate ill-formed octets with well-formed text.",
          "Trusted: the octet decoder of model/equiv.rs. Two known findings rooted in the pct-str / utf8-decode dependencies are listed in known_findings.json with matchers pinned to the panic site pct-str-2.0.0/src/lib.rs:200 and to the (operation, ill-formed octets, wrong value) signature; any other violation still exits 1.",
